@@ -35,6 +35,8 @@ def match_known(known, prop, viol):
             continue
         if "tag" in m and m["tag"] not in viol.get("tags", []):
             continue
+        if "tag_re" in m and not any(re.search(m["tag_re"], t) for t in viol.get("tags", [])):
+            continue
         if "witness" in m and not re.search(m["witness"], json.dumps(viol.get("witness"), sort_keys=True)):
             continue
         return k
